@@ -7,6 +7,7 @@ mod c03;
 mod c04;
 mod c05;
 mod c06;
+mod c30;
 mod common;
 mod witness;
 
@@ -19,6 +20,7 @@ fn main() {
         "C04" => c04::main(),
         "C05" => c05::main(),
         "C06" => c06::main(),
+        "C30" => c30::main(),
         other => {
             println!("INCONCLUSIVE property={other} reason=vh-exec has no check for this property");
             std::process::exit(2);
